@@ -345,8 +345,14 @@ def rule_normalisation(check, cx, r_n):
                       % unparse(a.left if isinstance(a, ast.Compare) else a))
         minus1 = val if minus1 is None or minus1 == val else 'both'
       elif (t[0] == 'truth' and is_res(t[1])) or (t[0] == 'cmp' and (is_res(t[2]) or is_res(t[3]))):
+        ZERO = (('const', 0), ('const', 0.0), ('const', None))
         if t[0] == 'truth':
           val = pol == 'T'
+        elif t[0] == 'cmp' and (is_res(t[2]) and t[3] not in ZERO or is_res(t[3]) and t[2] not in ZERO):
+          r_n.violate('resolution compared with something else than 0', fn, a, 'the resolution floor is decided by `%s`: every '
+                      'positive MIN_TIMESTAMP_RESOLUTION (1 included: it turns fractional timestamps into whole seconds) must '
+                      'floor the timestamp' % unparse(a))
+          continue
         elif t[0] == 'cmp' and t[1] in ('Gt', 'NotEq', 'IsNot') and is_res(t[2]):
           val = pol == 'T'
         elif t[0] == 'cmp' and t[1] in ('LtE', 'Eq', 'Is') and is_res(t[2]):
